@@ -330,7 +330,7 @@ func genKv(r *rand.Rand, tier string) kvInput {
 		if exists["s1.c1"] && r.Intn(3) == 0 {
 			viewColl = "s1.c1"
 		}
-		perm := r.Perm(len(mapSources))
+		perm := r.Perm(numMaps)
 		in.Ops = append(in.Ops, Step{Kind: "putddoc", Coll: viewColl, Handle: 0, DDoc: "dd",
 			Views: []ViewDef{{Name: "v0", Map: perm[0]}, {Name: "v1", Map: perm[1]}, {Name: "v2", Map: perm[2]}}, Clock: next()})
 	}
@@ -374,7 +374,7 @@ func genKv(r *rand.Rand, tier string) kvInput {
 			if r.Intn(5) == 0 {
 				in.Ops = append(in.Ops, Step{Kind: "delddoc", Coll: cn, Handle: h, DDoc: "dd", Clock: next()})
 			} else {
-				perm := r.Perm(len(mapSources))
+				perm := r.Perm(numMaps)
 				nv := 1 + r.Intn(3)
 				var vs []ViewDef
 				for j := 0; j < nv; j++ {
@@ -576,7 +576,7 @@ func genMotif(r *rand.Rand, m int, in *kvInput, exists map[string]bool, hot []st
 		if cn == "s1.c2" {
 			cn = "_default._default"
 		}
-		perm := r.Perm(len(mapSources))
+		perm := r.Perm(numMaps)
 		put := func(hh int, m0 int) {
 			in.Ops = append(in.Ops, Step{Kind: "putddoc", Coll: cn, Handle: hh, DDoc: "dd", Views: []ViewDef{{Name: "v0", Map: m0}, {Name: "v1", Map: perm[2]}}, Clock: next()})
 		}
@@ -636,7 +636,7 @@ func genMotif(r *rand.Rand, m int, in *kvInput, exists map[string]bool, hot []st
 		if cn == "s1.c2" {
 			cn = "_default._default"
 		}
-		in.Ops = append(in.Ops, Step{Kind: "putddoc", Coll: cn, Handle: h, DDoc: "dd", Views: []ViewDef{{Name: "v0", Map: r.Intn(len(mapSources))}, {Name: "v1", Map: 1}}, Clock: next()})
+		in.Ops = append(in.Ops, Step{Kind: "putddoc", Coll: cn, Handle: h, DDoc: "dd", Views: []ViewDef{{Name: "v0", Map: r.Intn(numMaps)}, {Name: "v1", Map: 1}}, Clock: next()})
 		kv(&KOp{Kind: "Set", Val: sp(pick(r, jsonBodies))})
 		view(h, "v0", &ViewParams{})
 		x := []XKV{{Name: "_sync", Val: sp(pick(r, xattrVals))}}
@@ -718,6 +718,7 @@ func genViewParams(r *rand.Rand) *ViewParams {
 		return vp
 	}
 	vp.Stale = r.Intn(8) == 0
+	vp.NoReduce = r.Intn(3) == 0
 	vp.Descending = r.Intn(2) == 0
 	if r.Intn(4) == 0 {
 		vp.Limit = 1 + r.Intn(3)
